@@ -21,6 +21,7 @@ def corpus():
         out.append("RT " + genb.show_bundle(b))
         out.append("RTV " + genb.show_bundle(b))
     out += ["RTV " + genb.show_bundle(b) for b in boundary_bundles()[:12]]
+    out += genb.BIG_CASES[:9]      # blocks beyond 64 KiB, 65536+ array elements: implementation against the reference encoder
     return out
 
 
@@ -39,6 +40,8 @@ def cases(rng, tier):
 
 
 def oracle(line, out, mode):
+    if line.startswith("RTBIG "):
+        return genb.judge_rtbig(line, out)
     tok = line.split(" ")
     if tok[0] == "CRC16":
         want = genb.crc16_x25(bytes.fromhex(tok[1][1:]))
@@ -63,7 +66,7 @@ def oracle(line, out, mode):
 
 
 def same(line, io, mo):
-    return False
+    return line.startswith("RTBIG ")     # implementation only (the model prints NA); judged by the oracle against the reference encoder
 
 
 def classify(line, out):
